@@ -104,6 +104,7 @@ type Stats struct {
 	SwitchInBuild  int // switch away from a task parked inside a StallSites site
 	OverlapBuild   int // a task entered a StallSites site while another task was parked inside one
 	OnceWaits      int
+	WriterQueued   int // a write Lock() on an RWMutex had to queue (new readers then queue behind it)
 	MaxOpYields    int
 }
 
@@ -138,7 +139,15 @@ type Sim struct {
 	// (used for the stall-in-build fault and the overlap probes).
 	InBuild func(site string) bool
 
-	onces map[*sync.Once]*onceState
+	// NOTE: no Go maps, append-with-shift or copy() in state that tasks mutate: the runtime's map,
+	// growslice and slicecopy code is race-annotated even when called from //go:norace functions,
+	// and would report the simulator's own bookkeeping. Fixed arrays and plain stores only.
+	onces  [64]*onceState
+	nOnces int
+	// rwWaiting: (RWMutex identity, task) pairs whose write Lock() is queued. Go's RWMutex blocks new
+	// readers behind a queued writer; spinning on TryLock alone would never model that.
+	rwWaiting [64]rwWait
+	nRW       int
 
 	checkGoid bool
 	wg        sync.WaitGroup
@@ -146,8 +155,14 @@ type Sim struct {
 }
 
 type onceState struct {
+	once    *sync.Once
 	running *Task
 	done    bool
+}
+
+type rwWait struct {
+	key  any
+	task *Task
 }
 
 var active *Sim
@@ -159,7 +174,7 @@ func getActive() *Sim { return active }
 func setActive(s *Sim) { active = s }
 
 func NewSim(seed uint64, pol Policy) *Sim {
-	s := &Sim{rng: NewRng(seed), pol: pol, onces: map[*sync.Once]*onceState{}}
+	s := &Sim{rng: NewRng(seed), pol: pol}
 	if s.pol.MaxYields == 0 {
 		s.pol.MaxYields = 200000
 	}
@@ -670,6 +685,81 @@ func Lock(try func() bool, lock func(), site string) {
 	clearBlocked(t)
 }
 
+// LockW replaces X.Lock() on a sync.RWMutex. key identifies the mutex.
+func LockW(key any, try func() bool, lock func(), site string) {
+	s, t := current()
+	if s == nil {
+		lock()
+		return
+	}
+	s.step(t, site, EvYield, false)
+	first := true
+	for !try() {
+		if first {
+			countContention(s)
+			first = false
+		}
+		setWriterWaiting(s, key, t, true)
+		s.step(t, site, EvBlocked, true)
+	}
+	setWriterWaiting(s, key, t, false)
+	clearBlocked(t)
+}
+
+// LockR replaces X.RLock() on a sync.RWMutex: a reader queues behind a writer
+// that is already waiting, exactly as the real RWMutex does - which is what
+// makes a re-entrant read lock a deadlock.
+func LockR(key any, try func() bool, lock func(), site string) {
+	s, t := current()
+	if s == nil {
+		lock()
+		return
+	}
+	s.step(t, site, EvYield, false)
+	first := true
+	for {
+		if !otherWriterWaiting(s, key, t) && try() {
+			break
+		}
+		if first {
+			countContention(s)
+			first = false
+		}
+		s.step(t, site, EvBlocked, true)
+	}
+	clearBlocked(t)
+}
+
+//go:norace
+func setWriterWaiting(s *Sim, key any, t *Task, on bool) {
+	for i := 0; i < s.nRW; i++ {
+		if s.rwWaiting[i].task == t && s.rwWaiting[i].key == key {
+			if !on {
+				s.nRW--
+				s.rwWaiting[i] = s.rwWaiting[s.nRW]
+				s.rwWaiting[s.nRW] = rwWait{}
+			}
+			return
+		}
+	}
+	if on && s.nRW < len(s.rwWaiting) {
+		s.rwWaiting[s.nRW] = rwWait{key, t}
+		s.nRW++
+		s.Stats.WriterQueued++
+	}
+}
+
+//go:norace
+func otherWriterWaiting(s *Sim, key any, t *Task) bool {
+	for i := 0; i < s.nRW; i++ {
+		w := s.rwWaiting[i]
+		if w.task != t && w.task.state != stDone && w.key == key {
+			return true
+		}
+	}
+	return false
+}
+
 //go:norace
 func countContention(s *Sim) { s.Stats.LockContention++ }
 
@@ -717,10 +807,23 @@ func OnceDo(o *sync.Once, f func(), site string) {
 }
 
 //go:norace
+func findOnce(s *Sim, o *sync.Once) *onceState {
+	for i := 0; i < s.nOnces; i++ {
+		if s.onces[i].once == o {
+			return s.onces[i]
+		}
+	}
+	return nil
+}
+
+//go:norace
 func onceEnter(s *Sim, t *Task, o *sync.Once) int {
-	st := s.onces[o]
+	st := findOnce(s, o)
 	if st == nil {
-		s.onces[o] = &onceState{running: t}
+		if s.nOnces < len(s.onces) {
+			s.onces[s.nOnces] = &onceState{once: o, running: t}
+			s.nOnces++
+		}
 		return 0
 	}
 	if st.done {
@@ -735,7 +838,7 @@ func onceEnter(s *Sim, t *Task, o *sync.Once) int {
 
 //go:norace
 func onceLeave(s *Sim, o *sync.Once) {
-	st := s.onces[o]
+	st := findOnce(s, o)
 	st.done = true
 	st.running = nil
 	s.unlockEpoch++
